@@ -1,6 +1,6 @@
 (* Property C04 — statements only.  Each is closed by [exact] of a lemma proved elsewhere. *)
 From Coq Require Import List ZArith Bool. Import ListNotations.
-Require Import Package PkgManproof PkgZipproof PkgOKproof.
+Require Import Package PkgManproof PkgZipproof PkgOKproof Pkgproof PkgStepWF PkgStepWF4 PkgOKstep PkgOKstep3 PkgOKstep5 PkgInitproof PkgInstproof.
 Open Scope Z_scope.
 
 (* the saved zip of a container coherent with its manifest: first entry mimetype and STORED, unique names, the manifest's
@@ -61,11 +61,155 @@ Example C04_templates_ok :
   /\ cPkgOKb [] (tmpl 28 [] []) = true.                                              (* drawing *)
 Proof. repeat split. Qed.
 
-(* full strength, for the record: PkgOK preserved by every operation of the history alphabet on the whole document model.
-   Proved: the invariant on the (file set, entry list) abstraction for add / import / delete, and the zip shape of a
-   coherent container.  Evaluated by the correspondence on every implementation state: PkgOKb of the model's next state
-   implies PkgOKb of the implementation's. *)
-Definition C04_full : Prop :=
-  forall (fs : cfs) (d : cdoc) (o : cop), cWFdb fs d = true -> cPkgOKb fs d = true ->
-    match o with OSetPart _ _ | OEdit _ _ | OOpen _ _ | ONew _ _ => True
-    | _ => let s := fst (cstep FIXED (fs, d) o) in cPkgOKb (fst s) (snd s) = true end.
+(* C04_inv: every operation of the document-level alphabet preserves CInv = SInv + PkgOK of the document + every package of the file system opens as a coherent package; ok04 = what the API guarantees about the arguments (file names are not directory names, media types are strings, manifest.rdf is not given an empty type, set_part replaces an existing part) *)
+Theorem C04_inv :
+  forall (xml bytes kid : Type) (ser : xml -> bytes)
+           (par : bytes -> xml) (pretty stamp : xml -> xml)
+           (entries : xml -> mentries) (with_entries : mentries -> xml -> xml)
+           (kids : xml -> list kid) (mime : bytes -> mtype)
+           (mime_bytes : mtype -> bytes) (rdf0 : bytes),
+         (forall x : xml, par (ser x) = x) ->
+         (forall (es : mentries) (x : xml), entries (with_entries es x) = es) ->
+         (forall x : xml, entries (pretty x) = entries x) ->
+         (forall m : mtype, mime (mime_bytes m) = m) ->
+         forall (s : fsys bytes kid * document xml bytes) (o : op xml bytes),
+         CInv xml bytes kid par entries mime s ->
+         ok04 xml bytes kid s o ->
+         CInv xml bytes kid par entries mime
+           (fst
+              (step xml bytes kid ser par pretty stamp entries with_entries
+                 kids mime mime_bytes rdf0 FIXED s o)).
+Proof. exact step_pkgok. Qed.
+Print Assumptions C04_inv.
+
+(* C04_full: by induction over histories *)
+Theorem C04_full :
+  forall (xml bytes kid : Type) (ser : xml -> bytes)
+           (par : bytes -> xml) (pretty stamp : xml -> xml)
+           (entries : xml -> mentries) (with_entries : mentries -> xml -> xml)
+           (kids : xml -> list kid) (mime : bytes -> mtype)
+           (mime_bytes : mtype -> bytes) (rdf0 : bytes),
+         (forall x : xml, par (ser x) = x) ->
+         (forall (es : mentries) (x : xml), entries (with_entries es x) = es) ->
+         (forall x : xml, entries (pretty x) = entries x) ->
+         (forall m : mtype, mime (mime_bytes m) = m) ->
+         forall (os : list (op xml bytes))
+           (s : fsys bytes kid * document xml bytes),
+         CInv xml bytes kid par entries mime s ->
+         run_ok xml bytes kid ser par pretty stamp entries with_entries kids
+           mime mime_bytes rdf0 s os ->
+         CInv xml bytes kid par entries mime
+           (run xml bytes kid ser par pretty stamp entries with_entries kids
+              mime mime_bytes rdf0 FIXED s os).
+Proof. exact run_pkgok. Qed.
+Print Assumptions C04_full.
+
+(* the first operation: opening any package of a coherent file system, or creating a document from a template *)
+Theorem C04_start :
+  forall (xml bytes kid : Type) (ser : xml -> bytes)
+           (par : bytes -> xml) (pretty stamp : xml -> xml)
+           (entries : xml -> mentries) (with_entries : mentries -> xml -> xml)
+           (kids : xml -> list kid) (mime : bytes -> mtype)
+           (mime_bytes : mtype -> bytes) (rdf0 : bytes),
+         (forall x : xml, par (ser x) = x) ->
+         (forall (es : mentries) (x : xml), entries (with_entries es x) = es) ->
+         (forall m : mtype, mime (mime_bytes m) = m) ->
+         forall (fs : fsys bytes kid) (d0 : document xml bytes)
+           (o : op xml bytes),
+         FsOK bytes kid fs ->
+         AllGood xml bytes kid par entries mime fs ->
+         starts xml bytes o ->
+         snd
+           (step xml bytes kid ser par pretty stamp entries with_entries kids
+              mime mime_bytes rdf0 FIXED (fs, d0) o) = Done ->
+         CInv xml bytes kid par entries mime
+           (fst
+              (step xml bytes kid ser par pretty stamp entries with_entries
+                 kids mime mime_bytes rdf0 FIXED (fs, d0) o)).
+Proof. exact start_inv. Qed.
+Print Assumptions C04_start.
+
+(* C04_full from the initial-state predicate (FsOK fs, AllGood fs), first operation open / new *)
+Theorem C04_full_from_packages :
+  forall (xml bytes kid : Type) (ser : xml -> bytes)
+           (par : bytes -> xml) (pretty stamp : xml -> xml)
+           (entries : xml -> mentries) (with_entries : mentries -> xml -> xml)
+           (kids : xml -> list kid) (mime : bytes -> mtype)
+           (mime_bytes : mtype -> bytes) (rdf0 : bytes),
+         (forall x : xml, par (ser x) = x) ->
+         (forall (es : mentries) (x : xml), entries (with_entries es x) = es) ->
+         (forall x : xml, entries (pretty x) = entries x) ->
+         (forall m : mtype, mime (mime_bytes m) = m) ->
+         forall (fs : fsys bytes kid) (d0 : document xml bytes)
+           (o : op xml bytes) (os : list (op xml bytes)),
+         FsOK bytes kid fs ->
+         AllGood xml bytes kid par entries mime fs ->
+         starts xml bytes o ->
+         snd
+           (step xml bytes kid ser par pretty stamp entries with_entries kids
+              mime mime_bytes rdf0 FIXED (fs, d0) o) = Done ->
+         run_ok xml bytes kid ser par pretty stamp entries with_entries kids
+           mime mime_bytes rdf0
+           (fst
+              (step xml bytes kid ser par pretty stamp entries with_entries
+                 kids mime mime_bytes rdf0 FIXED (fs, d0) o)) os ->
+         CInv xml bytes kid par entries mime
+           (run xml bytes kid ser par pretty stamp entries with_entries kids
+              mime mime_bytes rdf0 FIXED
+              (fst
+                 (step xml bytes kid ser par pretty stamp entries with_entries
+                    kids mime mime_bytes rdf0 FIXED (
+                    fs, d0) o)) os).
+Proof. exact history_pkgok. Qed.
+Print Assumptions C04_full_from_packages.
+
+(* C04_zip_shape as a corollary for every state satisfying the invariant (hence every reachable one): the zip written starts with the STORED mimetype, has unique names and opens, by path or from a buffer, as a package whose manifest lists exactly its files, '/' carrying the mimetype *)
+Theorem C04_zip_shape_reachable :
+  forall (xml bytes kid : Type) (ser : xml -> bytes)
+           (par : bytes -> xml) (pretty stamp : xml -> xml)
+           (entries : xml -> mentries) (with_entries : mentries -> xml -> xml)
+           (kids : xml -> list kid) (mime : bytes -> mtype) 
+           (rdf0 : bytes),
+         (forall x : xml, par (ser x) = x) ->
+         (forall (es : mentries) (x : xml), entries (with_entries es x) = es) ->
+         (forall x : xml, entries (pretty x) = entries x) ->
+         forall (fs : fsys bytes kid) (d : document xml bytes) 
+           (t : target) (pty : bool) (fs' : fsys bytes kid)
+           (d' : document xml bytes),
+         CInv xml bytes kid par entries mime (fs, d) ->
+         d_save xml bytes kid ser par pretty stamp entries kids mime rdf0 FIXED
+           fs d t PZip pty = (fs', d', true) ->
+         exists
+           (es : list (name * bool * bytes)) (mb : bytes) 
+         (r : list (name * bool * bytes)),
+           lookup (tgt_id t) fs' = Some (FZip es) /\
+           es = ((MIMETYPE, true, mb) :: r)%list /\
+           List.NoDup
+             (List.map (fun e : name * bool * bytes => fst (fst e)) es) /\
+           (forall (b : bool) (c : container bytes),
+            c_open bytes kid fs' (tgt_id t) b = Some c ->
+            PkgOK xml bytes kid par entries mime fs'
+              {| cont := c; xps := nil |}).
+Proof. exact save_zip_shape. Qed.
+Print Assumptions C04_zip_shape_reachable.
+
+(* the initial-state predicate is inhabited by the four templates (abstractions of src/odfdo/templates/*.ot? as the harness
+   reads them), and Document("text" | "spreadsheet" | "presentation" | "drawing") / Document(path) succeed on them *)
+Example C04_initial_state : FsOK cbytes Z tmpl_fs /\ AllGood cxml cbytes Z cpar centries cmime tmpl_fs.
+Proof. exact tmpl_fs_ok. Qed.
+Example C04_templates_start : forall p, In p [1; 2; 3; 4] ->
+  snd (cstep FIXED (tmpl_fs, mkD (mkC [] [] None PZip) []) (ONew p 99)) = Done
+  /\ snd (cstep FIXED (tmpl_fs, mkD (mkC [] [] None PZip) []) (OOpen p false)) = Done.
+Proof. exact tmpl_starts. Qed.
+Example C04_instance_hypotheses : (forall x, cpar (cser x) = x) /\ (forall es x, centries (cwith_entries es x) = es)
+  /\ (forall x, centries (cpretty x) = centries x) /\ (forall m, cmime (cmime_bytes m) = m).
+Proof. exact (conj cpar_cser (conj centries_with (conj centries_pretty cmime_bytes_ok))). Qed.
+
+(* F42 (new finding, not repaired): the alphabet excludes giving manifest.rdf an EMPTY media type, because the faithful model,
+   like the implementation, then breaks the invariant at the next save: _check_manifest_rdf tests the truth value of the media
+   type, deletes the part and keeps the entry *)
+Theorem C04_rdf_empty_type_refuted : exists (s : cfs * cdoc) (o1 o2 : cop),
+  cPkgOKb (fst s) (snd s) = true /\
+  let s2 := fst (cstep FIXED (fst (cstep FIXED s o1)) o2) in cPkgOKb (fst s2) (snd s2) = false.
+Proof. exact f42_refuted. Qed.
+Print Assumptions C04_rdf_empty_type_refuted.
